@@ -78,6 +78,25 @@ CHECKS = {
         "note": "tolerance 1e-8 cycles with 30*F0*span <= 4e6 cycles; TMIDs in a leap-second-free range; astropy's parsing of the TMID string trusted",
         "technique": "property-based testing: grammar-based text generation + exact-rational oracle; repeatability check for hidden state",
     },
+    "C13": {
+        "text": "Generated dual-polarisation signals (both bases, c8/c16, nchan 1..5, 0..2 trailing dims, NumPy and Dask, noise / pure X,Y,L,R / zeros / "
+                "mixed scales, amplitudes 1e-10..1e8) checked against the docstring formulas written out independently: conversion values, per-sample "
+                "power, inverse restores, same-basis identity, Stokes from the linear formulas in either basis, I^2=Q^2+U^2+V^2, I>=0, I = summed "
+                "intensity, handedness pinned by pure L/R, named component access, metadata carried; call sequences on one object (repeatability, "
+                "no aliasing). Exploration.",
+        "ref": "DESIGN.md section 4 C13",
+        "note": "values compared at the input's precision (4e-6 relative for complex64, 1e-13 for complex128); output width is not asserted",
+        "technique": "property-based testing: Hypothesis vs independently written formulas; call-sequence repeatability",
+    },
+    "C19": {
+        "text": "real_to_complex on generated real arrays (N 0..130 of every residue mod 4, rank 1..3, every axis, f2/f4/f8/i2/i8/u1/bool, noise/tones/"
+                "impulses) against an O(N^2) extended-precision evaluation of the definition, plus shape, dtype rule, real-part identity, linearity, tone "
+                "mapping, complex refusal; and the reader path on real-sampled VDIF files written by the check (odd n, frame-crossing and >8192-sample "
+                "reads) against the same reference on the file's samples. Exploration.",
+        "ref": "DESIGN.md section 4 C19",
+        "note": "tolerance 16 eps (1+log2 N) sqrt(N) max|x| at the precision scipy.fft computes in; numpy.fft reference for reads longer than 128 samples",
+        "technique": "property-based testing: Hypothesis vs longdouble DFT-definition oracle; generated files for the reader path",
+    },
     "C18": {
         "text": "Generated-input search against an independent table of all 7-smooth numbers below 2^64: exhaustive for 0 <= N < 10^6 (10^7 thorough), "
                 "at s-1, s, s+1 and the midpoint for the 7-smooth s < 2^62 (all of them in the thorough tier), Hypothesis integers over [0, 2^62), and "
